@@ -77,6 +77,7 @@ pub struct Obj {
     pub depth: i64,
     pub origin: Origin,
     pub weak_many: bool,
+    pub ever_weak: bool,
     pub first_failed_upgrade: Option<u64>,
     pub destruct_root_seen: bool,
     /// full-width epoch of the last stamp written into the count word (None = never stamped)
@@ -162,6 +163,8 @@ pub struct Shadow {
     pub n_closures_run: u64,
     pub c12_checked: u64,
     pub c12_window_checked: u64,
+    pub n_quiescent_checks: u64,
+    pub n_quiescent_words: u64,
     pub ebr: crate::ebrmon::EbrMirror,
     /// C12 directed sweep: observed decision for the watched child
     /// properties that ownership-exactness violations are *also* attributed to in this family
@@ -228,6 +231,8 @@ impl Shadow {
             n_closures_run: 0,
             c12_checked: 0,
             c12_window_checked: 0,
+            n_quiescent_checks: 0,
+            n_quiescent_words: 0,
             ebr: crate::ebrmon::EbrMirror::default(),
             strong_extra: "",
             weak_extra: "",
@@ -274,6 +279,7 @@ impl Shadow {
             depth: -1,
             origin,
             weak_many: false,
+            ever_weak: false,
             first_failed_upgrade: None,
             destruct_root_seen: false,
             stamp_full: None,
@@ -335,6 +341,7 @@ impl Shadow {
             sim().violation(&format!("C03{}", self.weak_extra), "weak-acquire-after-free", &format!("weak-acquire-after-free/{}", how), &det);
         }
         ob.weak += 1;
+        ob.ever_weak = true;
     }
     pub fn release_weak(&mut self, o: u32, n: i64) {
         let ob = &mut self.objs[o as usize];
@@ -573,6 +580,7 @@ impl Shadow {
             .set("closures_run", self.n_closures_run)
             .set("c12_checked", self.c12_checked)
             .set("c12_window_checked", self.c12_window_checked)
+            .set("count_words_checked_at_quiescent_points", self.n_quiescent_words)
     }
 }
 
@@ -628,6 +636,41 @@ impl Monitor for RcMonitor {
                     }
                 }
             }
+        }
+    }
+
+    /// C12 (field independence, as far as simulated programs reach): with every thread at an op
+    /// boundary the count word, decoded with the harness' own layout constants, must agree
+    /// with the shadow's tokens — strong and weak each up to one outstanding permission token,
+    /// flags exactly.
+    fn quiescent(&mut self, _tid: usize) {
+        let sh = shadow();
+        sh.n_quiescent_checks += 1;
+        let mut bad: Option<String> = None;
+        for ob in sh.objs.iter() {
+            if !ob.registered || ob.dealloc > 0 {
+                continue;
+            }
+            let st = read_state(ob.state_addr);
+            let strong = (st & ST_STRONG_MASK) as i64;
+            let weak = ((st & ST_WEAK_MASK) >> ST_WEAK_SHIFT) as i64;
+            let destructed = st & ST_DESTRUCTED != 0;
+            let implicit = if ob.drop == 0 { 1 } else { 0 };
+            let ok_strong = destructed || (strong - ob.strong == 0 || strong - ob.strong == 1);
+            let ok_weak = weak - (ob.weak + implicit) == 0 || weak - (ob.weak + implicit) == 1;
+            let ok_flag = destructed == (ob.pop > 0 || ob.destruct_root_seen);
+            let ok_weaked = !ob.ever_weak || (st & ST_WEAKED != 0);
+            if !(ok_strong && ok_weak && ok_flag && ok_weaked) {
+                bad = Some(format!(
+                    "count word of #{} is {:#018x}: decoded strong={} weak={} destructed={} weaked={} stamp={}, but the model has {} strong owner(s), {} weak owner(s) (+{} implicit), destructed={}, ever weak={}",
+                    ob.id, st, strong, weak, destructed, st & ST_WEAKED != 0, st >> ST_EPOCH_SHIFT, ob.strong, ob.weak, implicit, ob.pop > 0, ob.ever_weak
+                ));
+                break;
+            }
+            sh.n_quiescent_words += 1;
+        }
+        if let Some(det) = bad {
+            sh.soft("C12", "count-word-mismatch", det);
         }
     }
 
